@@ -221,6 +221,60 @@ def _scales_in_place(ev):
     return any(k == 'S' for k, _ in ev)
 
 
+_CONSTS = {}      # module-level named constants of the file being analysed (set by extract_facts / hidden_state)
+
+
+def module_constants(tree):
+    """NAME = <literal> at module level (numbers, strings, tuples of them, signs), bound exactly once in the whole file and
+    never declared global: the value the name stands for everywhere"""
+    stores = {}
+    for x in ast.walk(tree):
+        if isinstance(x, ast.Name) and isinstance(x.ctx, (ast.Store, ast.Del)):
+            stores[x.id] = stores.get(x.id, 0) + 1
+        if isinstance(x, (ast.Global, ast.Nonlocal)):
+            for n in x.names:
+                stores[n] = stores.get(n, 0) + 2
+        if isinstance(x, ast.arg):
+            stores[x.arg] = stores.get(x.arg, 0) + 2          # shadowed by a parameter somewhere: do not resolve
+        if isinstance(x, (ast.Import, ast.ImportFrom)):
+            for a in x.names:
+                nm = (a.asname or a.name).split('.')[0]
+                stores[nm] = stores.get(nm, 0) + 2
+    out = {}
+    for n in tree.body:
+        tgt = None
+        if isinstance(n, ast.Assign) and len(n.targets) == 1 and isinstance(n.targets[0], ast.Name):
+            tgt, val = n.targets[0].id, n.value
+        elif isinstance(n, ast.AnnAssign) and isinstance(n.target, ast.Name) and n.value is not None:
+            tgt, val = n.target.id, n.value
+        if tgt is None or stores.get(tgt, 0) != 1:
+            continue
+        try:
+            v = _const_eval(val, out)
+        except Exception:
+            continue
+        ok = lambda v: isinstance(v, (int, float, str)) and not isinstance(v, bool)
+        if ok(v) or (isinstance(v, tuple) and all(ok(e) for e in v)):
+            out[tgt] = v
+    return out
+
+
+class _Subst(ast.NodeTransformer):
+    def __init__(self, consts):
+        self.consts = consts
+
+    def visit_Name(self, n):
+        if isinstance(n.ctx, ast.Load) and n.id in self.consts:
+            return ast.copy_location(ast.parse(repr(self.consts[n.id]), mode='eval').body, n)
+        return n
+
+
+def _const_eval(node, consts=None):
+    """the literal value of an expression built from literals, signs and resolved module-level constants (raises otherwise)"""
+    consts = _CONSTS if consts is None else consts
+    return ast.literal_eval(_Subst(consts).visit(copy.deepcopy(node)))
+
+
 def _place_sensitive_tests(fn):
     """branch conditions that mention latitude / longitude in a way that can single out the value 0"""
     bad = []
@@ -240,7 +294,7 @@ def _place_sensitive_tests(fn):
             sides = [t.left, t.comparators[0]]
             for a, b in (sides, sides[::-1]):
                 try:
-                    c = ast.literal_eval(b)
+                    c = _const_eval(b)
                 except Exception:
                     continue
                 if isinstance(c, (int, float)) and c != 0 and mentions(a):
@@ -314,7 +368,11 @@ MUTABLE_CALLS = {'dict', 'list', 'set', 'defaultdict', 'OrderedDict', 'Counter',
 
 
 def _str_const(n):
-    return n.value if isinstance(n, ast.Constant) and isinstance(n.value, str) else None
+    if isinstance(n, ast.Constant) and isinstance(n.value, str):
+        return n.value
+    if isinstance(n, ast.Name) and isinstance(_CONSTS.get(n.id), str):      # a module-level named string constant
+        return _CONSTS[n.id]
+    return None
 
 
 def _mutable_value(v):
@@ -330,7 +388,9 @@ def _mutable_value(v):
 def _literal_names(n):
     """tuple / list / set literal of string constants -> the strings, else None"""
     if isinstance(n, (ast.Tuple, ast.List, ast.Set)) and n.elts and all(_str_const(e) is not None for e in n.elts):
-        return [e.value for e in n.elts]
+        return [_str_const(e) for e in n.elts]
+    if isinstance(n, ast.Name) and isinstance(_CONSTS.get(n.id), tuple) and _CONSTS[n.id] and all(isinstance(e, str) for e in _CONSTS[n.id]):
+        return list(_CONSTS[n.id])                                           # a module-level named tuple of names
     return None
 
 
@@ -383,7 +443,7 @@ def _dict_keys(node, M, depth=0):
                 elif (isinstance(st, ast.Assign) and len(st.targets) == 1 and isinstance(st.targets[0], ast.Subscript)
                       and isinstance(st.targets[0].value, ast.Name) and st.targets[0].value.id == r.id
                       and _str_const(st.targets[0].slice) is not None and keys is not None):
-                    keys = keys + [st.targets[0].slice.value]
+                    keys = keys + [_str_const(st.targets[0].slice)]
                 else:
                     return None
             return keys
@@ -434,6 +494,8 @@ def hidden_state(tree):
     """every way the class can remember something the object model does not carry: instance attributes outside the declared
     sets that some method/property reads without having just written them, dynamic attribute writes, class-level and
     module-level mutable state, memoising decorators, mutable default arguments, `global`.  -> list of descriptions"""
+    global _CONSTS
+    _CONSTS = module_constants(tree)
     out = []
     cls = _cls(tree)
     M = _methods(cls)
@@ -522,7 +584,9 @@ def hidden_state(tree):
 
 def extract_facts(src=None):
     """-> dict of facts about the WMM class of the current working tree (raises ExtractError: fail closed)"""
+    global _CONSTS
     tree = ast.parse(src if src is not None else _src())
+    _CONSTS = module_constants(tree)
     cls = _cls(tree)
     M = _methods(cls)
     for need in ('__init__', 'reset_coefficients', 'load_coefficients', 'denormalize_coefficients', 'magnetic_field'):
